@@ -136,21 +136,25 @@ def any_nontrivial(inp, outp):
 
 
 def compare_c20(inp, impl_out, model_out):
+    """blocked flags equal; and for SOME completion order of the model every snapshot and the final state lie in
+    the set of whole-rounds states the implementation's value equals"""
     if inp.startswith('c20stress'):
         return impl_out == model_out
     a = dict(t.split('=', 1) for t in impl_out.split(' '))
     b = dict(t.split('=', 1) for t in model_out.split(' '))
-    if a.get('blocked') != b.get('blocked') or a.get('order') != b.get('order'):
+    if a.get('blocked') != b.get('blocked'):
         return False
-    ao, bo = a.get('obs', '-'), b.get('obs', '-')
+    ao = a.get('obs', '-')
     al = [] if ao == '-' else ao.split(';')
-    bl = [] if bo == '-' else bo.split(';')
-    if len(al) != len(bl):
-        return False
-    for x, y in zip(al, bl):
-        if y not in x.split('|'):
-            return False
-    return b.get('final') in a.get('final', '').split('|')
+    fin = a.get('final', '').split('|')
+    for alt in b.get('alts', '').split('!'):
+        obs, _, f = alt.partition('~')
+        bl = [] if obs in ('', '-') and not al else obs.split(';')
+        if len(bl) != len(al):
+            continue
+        if all((y == '-' and x == '-') or (y in x.split('|')) for x, y in zip(al, bl)) and f in fin:
+            return True
+    return False
 
 
 def state_prop(tag):
@@ -166,7 +170,7 @@ PROPS = {
     'C15': state_prop('C15'),
     'C19': state_prop('C19'),
     'C20': dict(crates=['hcore'], modes=[('hcore', 'c20')], compare=compare_c20, oracle_tag='C20',
-                nontrivial=lambda inp, outp: inp.startswith('c20 ') and 'obs=-' not in outp,
+                nontrivial=lambda inp, outp: inp.startswith('c20 ') and 'obs=-' not in outp and 'obs=' in outp,
                 rule='controlled-schedule runs of the real Tracer: at every yield point inside State::update_from_round (the real handler holding the write lock mid-update) a reader thread (snapshot) '
                      'and a clearer thread (clear) are released and given a 25 ms window; single pre-emption at every placement plus random double pre-emptions over histories of <= 3 (quick) / 4 (thorough) rounds, '
                      'plus free-running stress with several readers and a clearer; the interleaving model replays the enforced schedule and must predict blocked/blocked and the same whole-rounds snapshot; '
